@@ -44,6 +44,7 @@ class Opts:
         self.w_op = 4
         self.steps = [0, 1, 2, 3]  # allowed numbers of profiler steps
         self.faults = True
+        self.fault_none_weight = 12  # a launch is fault-free with probability w / (w + 3)
         self.memcpy = True
         self.memcpy_weight = 2  # relative to 6 for kernel launches
         self.memcpy_names = None  # restrict the copy kernel names (several full names per copy type)
@@ -92,7 +93,7 @@ def leaf_launch(draw, o: Opts, streams: List[int]) -> Dict[str, Any]:
         name, kname = vocab.MEMSET_LAUNCH, pick(draw, vocab.MEMSET_KERNELS)
     fault = "none"
     if o.faults:
-        fault = pick(draw, ["none"] * 12 + ["no_launch", "no_kernel", "no_corr"])
+        fault = pick(draw, ["none"] * o.fault_none_weight + ["no_launch", "no_kernel", "no_corr"])
     return {"t": "launch", "name": name, "kind": kind, "pre": pick(draw, SMALL),
             "dur": pick(draw, DUR + ([0] if o.allow_zero_call else [])),
             "stream": pick(draw, streams), "delay": pick(draw, ([0, 0] if o.allow_zero_delay else [1]) + [1, 2, 3, 6]),
